@@ -55,6 +55,7 @@ pub fn aux(id: &str, args: &[String]) -> i32 {
     match id {
         "C14" => c14::aux(args),
         "C21" => c21::aux(args),
+        "C32" => c32::aux(args),
         _ => {
             eprintln!("no aux entry for {}", id);
             4
